@@ -5,6 +5,7 @@ package column
 
 import (
 	"io"
+	"math"
 	"sync"
 	"time"
 
@@ -914,6 +915,7 @@ func vContractBufferFor(txn *Txn, columnName string) (b *commit.Buffer) {
 	b = txn.bufferFor(columnName)
 	vEnsures("buffer", b != nil && vFresh(b))
 	vBufferForName = columnName
+	vBufferForLast = b
 	return
 }
 
@@ -1768,12 +1770,23 @@ func vContractColumnAtGhost(txn *Txn, columnName string) (col *column, ok bool) 
 	col, ok = txn.columnAt(columnName)
 	vEnsures("found-is-non-nil", !ok || col != nil)
 	vEnsures("kind-says-what-the-implementation-supports", !ok || vKindOK(col)) // (columnFor: vLemmaColumnFor)
-	if vColumnAtN < 4 {
+	if vColumnAtForce {                                                         // a lemma fixed what the name resolves to
+		col, ok = vColumnAtForced, vColumnAtForced != nil
+	}
+	vColumnAtName = columnName
+	if 0 <= vColumnAtN && vColumnAtN < 4 {
 		vColumnAtFound[vColumnAtN] = ok
 	}
 	vColumnAtN++
 	return
 }
+
+// ghost: a lemma can fix what columnAt resolves a name to; the last name asked for
+var (
+	vColumnAtForce  bool
+	vColumnAtForced *column
+	vColumnAtName   string
+)
 
 // initialize replaced by its effect (its own lemma: vLemmaInitialize): some selection, set up
 //
@@ -1789,7 +1802,7 @@ func vLemmaUnion(owner *Collection, setup bool, index []uint64, a, b string) {
 	vAssume(owner != nil && vNothingHeld() && len(index) <= 1<<25)
 	vCol = owner
 	txn := &Txn{owner: owner, setup: setup, index: index}
-	vPairN, vColumnAtN = 0, 0
+	vPairN, vColumnAtN, vColumnAtForce = 0, 0, false
 	vSpareZero = false
 	txn.Union(a, b)
 	fa, fb := vColumnAtFound[0], vColumnAtFound[1]
@@ -2264,7 +2277,7 @@ func vLemmaWithUnion(owner *Collection, index []uint64, a, b string) {
 	vAssume(owner != nil && owner.slock != nil && vNothingHeld() && len(index) <= 1<<25)
 	vCol = owner
 	txn := &Txn{owner: owner, setup: true, index: index}
-	vColumnAtN, vRLatches = 0, 0
+	vColumnAtN, vRLatches, vColumnAtForce = 0, 0, false
 	txn.WithUnion(a, b)
 	vAssert("each-name-looked-up-once", vColumnAtN == 2)
 	vAssert("every-block-of-the-selection-visited", vRLatches == len(index)>>bitmapShift+1)
@@ -2454,7 +2467,7 @@ func vLemmaTypedFilters(owner *Collection, index []uint64, name string, sel uint
 	vAssume(owner != nil && vNothingHeld() && sel <= 3 && pi != nil && pu != nil && pf != nil && ps != nil && len(index) <= 1<<25)
 	vCol = owner
 	txn := &Txn{owner: owner, setup: true, index: index}
-	vColumnAtN, vRangeReadCalls, vTypedCalls = 0, 0, 0
+	vColumnAtN, vRangeReadCalls, vTypedCalls, vColumnAtForce = 0, 0, 0, false
 	vSpareZero = false
 	switch sel {
 	case 0:
@@ -2877,7 +2890,7 @@ func vLemmaWithValue(owner *Collection, index []uint64, name string, pred func(v
 	vAssume(owner != nil && vNothingHeld() && pred != nil && len(index) <= 1<<25)
 	vCol = owner
 	txn := &Txn{owner: owner, setup: true, index: index}
-	vColumnAtN, vRangeReadCalls, vValueCalls = 0, 0, 0
+	vColumnAtN, vRangeReadCalls, vValueCalls, vColumnAtForce = 0, 0, 0, false
 	vSpareZero = false
 	txn.WithValue(name, pred)
 	if !vColumnAtFound[0] {
@@ -2893,4 +2906,231 @@ func vLemmaWithValue(owner *Collection, index []uint64, name string, pred func(v
 		}
 	}
 	vAssert("released", vNothingHeld())
+}
+
+// ---------------------------------------------------------------------------------------------
+// Enum columns, typed filter (C04): per block the selection is first narrowed to the rows that hold a value and a
+// selected row then stays exactly if the predicate accepts the value interned at its location. The delegate caches
+// the verdict of the last location it saw; with the cache in any state that satisfies its invariant (nothing cached,
+// or the verdict cached for a location is the predicate's verdict on that location's value) the delegate returns the
+// predicate's verdict on the row's value and re-establishes the invariant.
+
+//@ lemma props=C04
+func vLemmaFilterEnum(chs chunks[uint32], names []string, chunk commit.Chunk, index []uint64, pred func(string) bool) {
+	vAssume(pred != nil && len(index) <= chunkSize/64 && chunk < 1<<17 && len(names) < 1<<20)
+	vAssume(vForall(0, len(chs), func(k int) bool { return len(chs[k].fill) == chunkSize/64 && len(chs[k].data) == chunkSize }))
+	col := &columnEnum{chunks: chs, data: names}
+	old := append([]uint64(nil), index...)
+	if int(chunk) < len(chs) {
+		vAssume(vDistinctBacking(index, chs[chunk].fill))
+		// storage invariant: every location stored for a present cell exists
+		vAssume(vForall(0, chunkSize, func(j int) bool { return int(chs[chunk].data[j]) < len(names) }))
+	}
+	col.FilterString(chunk, bitmap.Bitmap(index), pred)
+	if int(chunk) >= len(chs) {
+		vAssert("block-beyond-the-column-untouched", vForall(0, len(index), func(w int) bool { return index[w] == old[w] }))
+		return
+	}
+	fill, locs := chs[chunk].fill, chs[chunk].data
+	x := vFilterBit
+	if int(x>>6) < len(index) {
+		vAssert("kept-iff-selected-present-and-accepted", vBit(index, x) == (vBit(old, x) && vBit(fill, x) && pred(names[locs[x]])))
+	}
+	vAssert("other-rows-only-narrowed-to-presence", vForall(0, len(index), func(w int) bool {
+		m := uint64(0)
+		if uint32(w) == x>>6 {
+			m = 1 << (x & 63)
+		}
+		return index[w]&^m == old[w]&fill[w]&^m
+	}))
+}
+
+//@ lemma props=C04
+func vLemmaFilterEnumCache(locs []uint32, names []string, pred func(string) bool, idx uint32, cachedAt uint32, cachedVerdict bool) {
+	vAssume(pred != nil && int(idx) < len(locs) && int(locs[idx]) < len(names) && len(names) < 1<<20)
+	vAssume(cachedAt == 0xffffffff || (int(cachedAt) < len(names) && cachedVerdict == pred(names[cachedAt])))
+	col := &columnEnum{data: names}
+	cache := struct {
+		index uint32
+		value bool
+	}{cachedAt, cachedVerdict}
+	var res bool
+	vCallAnonRes(&res, "column.(*columnEnum).FilterString$1", []any{"locs", &locs, "cache", &cache, "predicate", &pred, "c", &col}, idx)
+	vAssert("verdict-of-the-predicate-on-the-row's-value", res == pred(names[locs[idx]]))
+	vAssert("cache-invariant-kept", cache.index == locs[idx] && cache.value == pred(names[locs[idx]]))
+}
+
+// With / Without at function level (C04): every block of an existing index is intersected with / subtracted from
+// the selection (the same operation in every block); a missing name is the empty set - With selects nothing,
+// Without changes nothing.
+//
+//@ lemma props=C04 mode=paths use=column.(*Txn).initialize
+func vLemmaWithWithout(owner *Collection, index []uint64, name string, without bool) {
+	vAssume(owner != nil && vNothingHeld() && len(index) <= 1<<25)
+	vCol = owner
+	txn := &Txn{owner: owner, setup: true, index: index}
+	vPairN, vColumnAtN, vColumnAtForce = 0, 0, false
+	vSpareZero = false
+	if without {
+		txn.Without(name)
+	} else {
+		txn.With(name)
+	}
+	vAssert("name-looked-up-once", vColumnAtN == 1)
+	if vColumnAtFound[0] {
+		want := uint8(1)
+		if without {
+			want = 2
+		}
+		vAssert("same-operation-in-every-block-of-the-index", vPairN == 2 && vPairOps[0] == want && vPairOps[1] == want)
+	} else if without {
+		vAssert("without-a-missing-index-touches-no-block", vPairN == 0)
+	} else {
+		vAssert("with-a-missing-index-selects-nothing", vPairN == 0 && len(txn.index) == 0)
+	}
+	vAssert("released", vNothingHeld())
+}
+
+// Txn.Insert (C12): on a collection with a primary key a row can only be inserted with its key.
+//
+//@ lemma props=C12
+func vLemmaInsertNeedsKey(owner *Collection) {
+	vAssume(owner != nil && vNothingHeld() && errUnkeyedInsert != nil)
+	txn := &Txn{owner: owner}
+	vDidInsert = 0
+	_, err := txn.Insert(func(Row) error { return nil })
+	vAssert("keyed-collection-refuses-an-unkeyed-insert", (owner.pk != nil) == (vDidInsert == 0) && (owner.pk == nil || err != nil))
+}
+
+// ---------------------------------------------------------------------------------------------
+// Row / transaction accessors (C01, C09): SetX / MergeX queue exactly one operation - a Put / a Merge - carrying the
+// given value for THE ROW UNDER THE CURSOR in the buffer of THE NAMED COLUMN; X reads the named column at the cursor.
+// (What the typed Put writes and a reader decodes: C05; what Apply does with it: the Apply lemmas. Generated code for
+// ten numeric kinds: three of them are checked, and the string, bool and key accessors.)
+
+var (
+	vTypedPuts    int
+	vTypedPutOp   commit.OpType
+	vTypedPutIdx  uint32
+	vTypedPutBuf  *commit.Buffer
+	vTypedPutBits uint64
+)
+
+//@ contract target=commit.(*Buffer).PutInt16 optin verify=no
+func vContractPutInt16Ghost(b *commit.Buffer, op commit.OpType, idx uint32, v int16) {
+	b.PutInt16(op, idx, v)
+	vTypedPuts++
+	vTypedPutOp, vTypedPutIdx, vTypedPutBuf, vTypedPutBits = op, idx, b, uint64(uint16(v))
+}
+
+//@ contract target=commit.(*Buffer).PutUint64 optin verify=no
+func vContractPutUint64Ghost(b *commit.Buffer, op commit.OpType, idx uint32, v uint64) {
+	b.PutUint64(op, idx, v)
+	vTypedPuts++
+	vTypedPutOp, vTypedPutIdx, vTypedPutBuf, vTypedPutBits = op, idx, b, v
+}
+
+//@ contract target=commit.(*Buffer).PutFloat64 optin verify=no
+func vContractPutFloat64Ghost(b *commit.Buffer, op commit.OpType, idx uint32, v float64) {
+	b.PutFloat64(op, idx, v)
+	vTypedPuts++
+	vTypedPutOp, vTypedPutIdx, vTypedPutBuf, vTypedPutBits = op, idx, b, math.Float64bits(v)
+}
+
+//@ contract target=commit.(*Buffer).PutBool optin verify=no
+func vContractPutBoolGhost(b *commit.Buffer, idx uint32, v bool) {
+	b.PutBool(idx, v)
+	vTypedPuts++
+	vTypedPutOp, vTypedPutIdx, vTypedPutBuf, vTypedPutBits = commit.Put, idx, b, uint64(b2i(v))
+}
+
+var vBufferForLast *commit.Buffer // ghost: the buffer the last bufferFor call returned
+
+func vAccessorSetup(owner *Collection, cursor uint32, impl Column) *Txn {
+	vAssume(owner != nil && vNothingHeld())
+	vCol = owner
+	vColumnAtForce, vColumnAtForced = true, columnFor("", impl)
+	vTypedPuts, vPutStrings, vColumnAtN = 0, 0, 0
+	return &Txn{owner: owner, cursor: cursor}
+}
+
+func vWrote(op commit.OpType, cursor uint32, name string, bits uint64) bool {
+	return vTypedPuts == 1 && vTypedPutOp == op && vTypedPutIdx == cursor && vTypedPutBits == bits && vTypedPutBuf == vBufferForLast &&
+		vBufferForName == name && vColumnAtName == name
+}
+
+//@ lemma props=C01,C09 use=commit.(*Buffer).PutInt16
+func vLemmaAccessorsInt16(owner *Collection, cursor uint32, name string, v int16, chs chunks[int16]) {
+	vAssume(vForall(0, len(chs), func(k int) bool { return len(chs[k].fill) == chunkSize/64 && len(chs[k].data) == chunkSize }))
+	impl := &numericColumn[int16]{chunks: chs}
+	txn := vAccessorSetup(owner, cursor, impl)
+	row := Row{txn}
+	got, ok := row.Int16(name)
+	want, wok := impl.load(cursor)
+	vAssert("reads-the-named-column-at-the-cursor", vColumnAtName == name && got == want && ok == wok)
+	row.SetInt16(name, v)
+	vAssert("set-queues-a-put-of-the-value-for-the-row-under-the-cursor", vWrote(commit.Put, cursor, name, uint64(uint16(v))))
+	vTypedPuts = 0
+	row.MergeInt16(name, v)
+	vAssert("merge-queues-a-merge-of-the-delta-for-the-row-under-the-cursor", vWrote(commit.Merge, cursor, name, uint64(uint16(v))))
+}
+
+//@ lemma props=C01,C09 use=commit.(*Buffer).PutUint64
+func vLemmaAccessorsUint64(owner *Collection, cursor uint32, name string, v uint64, chs chunks[uint64]) {
+	vAssume(vForall(0, len(chs), func(k int) bool { return len(chs[k].fill) == chunkSize/64 && len(chs[k].data) == chunkSize }))
+	impl := &numericColumn[uint64]{chunks: chs}
+	txn := vAccessorSetup(owner, cursor, impl)
+	row := Row{txn}
+	got, ok := row.Uint64(name)
+	want, wok := impl.load(cursor)
+	vAssert("reads-the-named-column-at-the-cursor", vColumnAtName == name && got == want && ok == wok)
+	row.SetUint64(name, v)
+	vAssert("set-queues-a-put-of-the-value-for-the-row-under-the-cursor", vWrote(commit.Put, cursor, name, v))
+	vTypedPuts = 0
+	row.MergeUint64(name, v)
+	vAssert("merge-queues-a-merge-of-the-delta-for-the-row-under-the-cursor", vWrote(commit.Merge, cursor, name, v))
+}
+
+//@ lemma props=C01,C09 use=commit.(*Buffer).PutFloat64
+func vLemmaAccessorsFloat64(owner *Collection, cursor uint32, name string, v float64, chs chunks[float64]) {
+	vAssume(vForall(0, len(chs), func(k int) bool { return len(chs[k].fill) == chunkSize/64 && len(chs[k].data) == chunkSize }))
+	impl := &numericColumn[float64]{chunks: chs}
+	txn := vAccessorSetup(owner, cursor, impl)
+	row := Row{txn}
+	got, ok := row.Float64(name)
+	want, wok := impl.load(cursor)
+	vAssert("reads-the-named-column-at-the-cursor", vColumnAtName == name && vSame(got, want) && ok == wok)
+	row.SetFloat64(name, v)
+	vAssert("set-queues-a-put-of-the-value-for-the-row-under-the-cursor", vWrote(commit.Put, cursor, name, math.Float64bits(v)))
+	vTypedPuts = 0
+	row.MergeFloat64(name, v)
+	vAssert("merge-queues-a-merge-of-the-delta-for-the-row-under-the-cursor", vWrote(commit.Merge, cursor, name, math.Float64bits(v)))
+}
+
+//@ lemma props=C01,C09
+func vLemmaAccessorsString(owner *Collection, cursor uint32, name string, v string, chs chunks[string]) {
+	vAssume(vForall(0, len(chs), func(k int) bool { return len(chs[k].fill) == chunkSize/64 && len(chs[k].data) == chunkSize }))
+	impl := &columnString{chunks: chs}
+	txn := vAccessorSetup(owner, cursor, impl)
+	row := Row{txn}
+	got, ok := row.String(name)
+	want, wok := impl.LoadString(cursor)
+	vAssert("reads-the-named-column-at-the-cursor", vColumnAtName == name && vSame(got, want) && ok == wok)
+	row.SetString(name, v)
+	vAssert("set-queues-a-put-of-the-value-for-the-row-under-the-cursor", vPutStrings == 1 && vPutStringOp == commit.Put && vPutStringIdx == cursor && vSame(vPutStringVal, v) && vBufferForName == name)
+	vPutStrings = 0
+	row.MergeString(name, v)
+	vAssert("merge-queues-a-merge-of-the-delta-for-the-row-under-the-cursor", vPutStrings == 1 && vPutStringOp == commit.Merge && vPutStringIdx == cursor && vSame(vPutStringVal, v) && vBufferForName == name)
+}
+
+//@ lemma props=C01 use=commit.(*Buffer).PutBool
+func vLemmaAccessorsBool(owner *Collection, cursor uint32, name string, v bool, data []uint64) {
+	vAssume(len(data) <= 1<<25)
+	impl := &columnBool{data: data}
+	txn := vAccessorSetup(owner, cursor, impl)
+	row := Row{txn}
+	got := row.Bool(name)
+	vAssert("reads-the-named-column-at-the-cursor", vColumnAtName == name && got == (int(cursor>>6) < len(data) && vBit(data, cursor)))
+	row.SetBool(name, v)
+	vAssert("set-queues-the-value-for-the-row-under-the-cursor", vWrote(commit.Put, cursor, name, uint64(b2i(v))))
 }
